@@ -299,7 +299,12 @@ fn check_mode(ctx: &Ctx, b: &Built, da: &ModuleD, mode: &str, edit_bytes: &[u8],
                         continue;
                     }
                     let abs = *addr as usize + cs_b;
-                    if ignored.contains(&op.offset) && out_starts.contains(&abs) {
+                    // walrus retains some dead code (after return_call ...): a row of
+                    // such an instruction may survive at the instruction's own new
+                    // place, which is an output instruction that is nobody else's
+                    // image; the start of a live instruction's image is unrelated code
+                    let is_live_image = truth.values().any(|v| *v == abs);
+                    if ignored.contains(&op.offset) && out_starts.contains(&abs) && !is_live_image {
                         out.label("unjudged:row-in-retained-dead-code");
                         continue;
                     }
